@@ -434,6 +434,11 @@ class Ctx(object):
             ts_, te_ = case["ts"], case["te"]
             if e == 3 and ts_ == 0:
                 edges = te_            # documented: a single number T1 means [0, T1]
+                if (self.evals + k) % 2:
+                    edges = np.float64(te_)          # ... e.g. data.max()
+                    if float(te_).is_integer() and abs(te_) < 1e9 and (self.evals + k) % 4 == 1:
+                        edges = np.int64(te_)
+                    self.counters["repr_edges_scalar_numpy"] += 1
                 self.counters["repr_edges_scalar"] += 1
             elif e == 4:
                 edges = [np.float64(ts_), np.float64(te_)]
@@ -442,7 +447,17 @@ class Ctx(object):
                 self.counters["repr_edges_numpy_scalars"] += 1
             else:
                 edges = [ts_, te_] if e == 0 else (ts_, te_) if e == 1 else np.array([ts_, te_])
-            st = ps.SpikeTrain(spikes, edges)
+            try:
+                st = ps.SpikeTrain(spikes, edges)
+            except (CaseTimeout, LineBudgetExceeded, KeyboardInterrupt):
+                raise
+            except BaseException as e_:
+                # building a valid train in one of the documented forms must not fail
+                self.cut_exceptions += 1
+                self.violation("exception:SpikeTrain():%s" % type(e_).__name__,
+                               "SpikeTrain(%s %s, edges=%r) raised %s: %s" % (type(spikes).__name__, short(list(spikes)), edges,
+                                                                           type(e_).__name__, e_))
+                raise CutFailed("SpikeTrain")
             if (self.evals + 3 * k) % 11 == 0 and len(s) >= 2 and isinstance(st.spikes, np.ndarray):
                 # users also assign `.spikes` (the documented attribute): a float64 array that happens to be a strided view
                 st.spikes = np.repeat(np.array(s, dtype=float), 2)[::2]
